@@ -29,6 +29,7 @@ import (
 	"os"
 	"strconv"
 	"strings"
+	"sync"
 	"time"
 
 	"github.com/saucelabs/forwarder/internal/martian/log"
@@ -373,7 +374,63 @@ func (p *proxyConn) tunnel(name string, res *http.Response, crw io.ReadWriteClos
 	return nil
 }
 
-func (p *proxyConn) handle() error {
+// onceCloseBody remembers how the first Close of a request body ended. Close reads a body to its
+// end; net/http's body reports nothing to a second Close, and the transport may have been the first
+// to call it - after an answer that came before the body had been sent.
+type onceCloseBody struct {
+	io.ReadCloser
+	once sync.Once
+	err  error
+}
+
+func (b *onceCloseBody) Close() error {
+	b.once.Do(func() { b.err = b.ReadCloser.Close() })
+	return b.err
+}
+
+// finishRequestBody disposes of what is left of the request body once the exchange is over. The
+// origin (or the proxy itself) may have answered without reading it: the rest is consumed, so that
+// the next request is found where it begins. A client that sends nothing is given the time it is
+// given between requests, not more, and none once the proxy is shutting down: the connection is
+// closed instead. It reports whether the connection can go on.
+func (p *proxyConn) finishRequestBody(req *http.Request) bool {
+	body := req.Body
+	if body == nil || body == http.NoBody {
+		return true
+	}
+
+	aLongTimeAgo := time.Unix(1, 0)
+	if p.closing() {
+		p.conn.SetReadDeadline(aLongTimeAgo)
+		body.Close()
+		return false
+	}
+
+	var deadline time.Time
+	if d := p.idleTimeout(); d > 0 {
+		deadline = time.Now().Add(d)
+	}
+	p.conn.SetReadDeadline(deadline)
+
+	// The beginning of a shutdown ends the wait.
+	stop := make(chan struct{})
+	defer close(stop)
+	go func() {
+		select {
+		case <-p.closeCh:
+			p.conn.SetReadDeadline(aLongTimeAgo)
+		case <-stop:
+		}
+	}()
+
+	if err := body.Close(); err != nil {
+		return false
+	}
+	p.conn.SetReadDeadline(time.Time{})
+	return true
+}
+
+func (p *proxyConn) handle() (retErr error) {
 	req, err := p.readRequest()
 	p.traceReadRequest(req, err)
 	if err != nil {
@@ -388,7 +445,14 @@ func (p *proxyConn) handle() error {
 		}
 		return errClose
 	}
-	defer req.Body.Close()
+	if req.Body != nil && req.Body != http.NoBody {
+		req.Body = &onceCloseBody{ReadCloser: req.Body}
+	}
+	defer func() {
+		if !p.finishRequestBody(req) {
+			retErr = errClose
+		}
+	}()
 
 	if p.closing() {
 		return errClose
